@@ -382,7 +382,7 @@ def run_shard(shard, tier, seed):
                     ctx.c['complete_element_build_failed'] += 1
             # ---- set / overwrite / remove sequences against a dictionary model
             usable = [(an, at) for an, at, _ in table if at is not None]
-            nseq = (2 if tier == 'quick' else 12) if usable else 0
+            nseq = (3 if tier == 'quick' else 12) if usable else 0
             for _ in range(nseq):
                 e = build(lib, cls)
                 model = {}
@@ -410,6 +410,23 @@ def run_shard(shard, tier, seed):
                                 model[an] = pv; done = True
                                 break
                         steps.append([an, lex, done])
+                    # acceptance must not depend on the value currently stored: offer the numerically equal value of the
+                    # other Python number type (1 -> 1.0, 2.0 -> 2) and compare with a fresh element
+                    cur = model.get(an)
+                    if isinstance(cur, (int, float)) and not isinstance(cur, bool) and cur == cur and abs(cur) < 1e15 \
+                            and float(cur) == int(cur):
+                        twin_val = float(cur) if isinstance(cur, int) else int(cur)
+                        fresh = build(lib, cls)
+                        rf = lib.call(setattr, fresh, pyname(an), twin_val)
+                        rh = lib.call(setattr, e, pyname(an), twin_val)
+                        ctx.evals += 1
+                        if (rf[0] == 'ok') != (rh[0] == 'ok'):
+                            ctx.v(_sig('acceptance-depends-on-stored-value', t, an, 'dot'),
+                                  {'class': cn, 'steps': steps, 'stored': repr(cur), 'offered': repr(twin_val)},
+                                  {'fresh': rf[0], 'with_history': rh[0]})
+                        if rh[0] == 'ok':
+                            model[an] = twin_val
+                        ctx.c['equal_value_other_type_probes'] += 1
                     if dict(e.attributes) != model:
                         ctx.v(_sig('sequence-model-differs', t, an, 'dot'), {'class': cn, 'steps': steps},
                               {'attributes': {k: repr(v) for k, v in e.attributes.items()},
